@@ -29,6 +29,10 @@ typedef SPxSolverBase<double>::VarStatus VS;
 static inline void count_hook(const void* base, int n, int v)
 {
    int b = (g_cnt_desc ? (v >= 0) : (v == (int)SPxSolverBase<double>::BASIC)) ? 1 : 0;
+   /* type invariant of a DataArray<Desc::Status>: the stored value lies in the value range of the enumeration
+      (enumerators -6..8, i.e. the 5-bit range [-16,15], C++ [dcl.enum]); the real isBasic() computes stat * rep() */
+   if(g_cnt_desc && (base == gp_arrR || base == gp_arrC))
+      __CPROVER_assume(-16 <= v && v <= 15);
    if(base == gp_arrR)
       __CPROVER_assume(0 <= gp_cntR[n] && gp_cntR[n] <= n && gp_cntR[n + 1] == gp_cntR[n] + b && gp_cntR[n + 1] <= gp_cntR[g_nr]);
    else if(base == gp_arrC)
